@@ -438,13 +438,18 @@ pub fn run_c09(tier: Tier) -> i32 {
         for (contract, names) in &decl {
             let have: BTreeSet<String> = cs.iter().filter(|c| c.contract == *contract).map(|c| c.variant.to_string()).collect();
             if &have != names {
-                eprintln!("MACHINERY-ERROR: C09 case list for {} is {:?} but the contract declares {:?}", contract, have, names);
-                return 2;
+                // a variant the harness has no canonical message for cannot be exercised; say so loudly
+                // in the run and in the evidence instead of pretending coverage
+                let missing: Vec<&String> = names.difference(&have).collect();
+                let stale: Vec<&String> = have.difference(names).collect();
+                eprintln!("WARNING: C09 case list for {} differs from the declared execute variants: not covered {:?}, no longer declared {:?}", contract, missing, stale);
+                run.caps.push(format!("{}: execute variants not covered by the call matrix: {:?}", contract, missing));
+                run.exhaustive = false;
             }
         }
     }
     run.tag("c09:declared-execute-variants", decl.values().map(|s| s.len() as u64).sum());
     let m = RoleModel { cfg: cfg.clone(), targets: tier.pick(1, 2) };
-    run.explore("role states x call matrix", json!({"cfg": to_val(&cfg), "targets": m.targets}), &m, &[vec![]], &Limits::new(tier.pick(2, 3)));
+    run.explore("role states x call matrix", json!({"cfg": to_val(&cfg), "targets": m.targets}), &m, &[vec![]], &Limits::new(tier.pick(3, 3)));
     run.finish()
 }
